@@ -350,7 +350,16 @@ class AirTouchSocket(Generic[comms.Hdr]):
             # the other side. This will already have been logged, so just
             # suppress it here.
             with contextlib.suppress(OSError):
-                await self._writer.wait_closed()
+                try:
+                    await self._writer.wait_closed()
+                except asyncio.CancelledError:
+                    # wait_closed awaits a future that is shared by every
+                    # waiter, so cancelling one waiting task (e.g. the heartbeat
+                    # in the middle of a reset) cancels it for all of them. Only
+                    # propagate a cancellation that is meant for this task.
+                    current_task = asyncio.current_task()
+                    if current_task is None or current_task.cancelling():
+                        raise
 
         self.is_connected = False
         self._reader = None
